@@ -13,8 +13,11 @@ package main
 import (
 	"fmt"
 	"regexp"
+	"sort"
 	"strconv"
 	"strings"
+	"unicode"
+	"unicode/utf8"
 
 	"golang.org/x/perf/benchfmt"
 	"golang.org/x/perf/benchproc"
@@ -194,6 +197,61 @@ func sameConfig(a, b []benchfmt.Config) bool {
 	return true
 }
 
+// textOracles lists what the parser MODEL (C07) may ask about the expression text: which
+// substrings between two '/' compile as regular expressions, and which runes >= 0x80 are spaces.
+func textOracles(text string) (reok string, sp string) {
+	var slashes []int
+	for i := 0; i < len(text); i++ {
+		if text[i] == '/' {
+			slashes = append(slashes, i)
+		}
+	}
+	seen := map[string]bool{}
+	var ok []string
+	pairs := 0
+	// nearest pairs first: a regexp rarely contains many slashes
+	for gap := 1; gap < len(slashes) && pairs < 1500; gap++ {
+		for a := 0; a+gap < len(slashes) && pairs < 1500; a++ {
+			b := a + gap
+			e := text[slashes[a]+1 : slashes[b]]
+			pairs++
+			if seen[e] {
+				continue
+			}
+			seen[e] = true
+			if _, err := regexp.Compile(e); err == nil {
+				ok = append(ok, e)
+			}
+		}
+	}
+	spm := map[rune]bool{}
+	for i := 0; i < len(text); i++ {
+		if text[i] < 0x80 {
+			continue
+		}
+		if r := rune(text[i]); unicode.IsSpace(r) {
+			spm[r] = true
+		}
+		if r, _ := utf8.DecodeRuneInString(text[i:]); r >= 0x80 && unicode.IsSpace(r) {
+			spm[r] = true
+		}
+	}
+	sp = "-"
+	if len(spm) > 0 {
+		var rs []int
+		for r := range spm {
+			rs = append(rs, int(r))
+		}
+		sort.Ints(rs)
+		ps := make([]string, len(rs))
+		for i, r := range rs {
+			ps[i] = strconv.FormatInt(int64(r), 16)
+		}
+		sp = strings.Join(ps, ",")
+	}
+	return hx.HexListS(ok), sp
+}
+
 func b01(b bool) string {
 	if b {
 		return "1"
@@ -238,6 +296,19 @@ func newErrTag(err error) string {
 		return "!emptykey@" + strconv.Itoa(se.Off)
 	}
 	return "!syntax"
+}
+
+// newErrTagText is the text-path view of a NewFilter error: syntax errors carry their offset.
+func newErrTagText(err error) string {
+	se, ok := err.(*parse.SyntaxError)
+	if !ok {
+		return "!other"
+	}
+	t := newErrTag(err)
+	if t == "!syntax" {
+		return "!syntax@" + strconv.Itoa(se.Off)
+	}
+	return t
 }
 
 func projErrTag(err error) string {
@@ -292,7 +363,7 @@ func runCase(id int, kind, expr string, rs *resSpec, projTexts []string, extraTa
 
 	// ---- the case line
 	tree, terr := parse.ParseFilter(expr)
-	treeS, reS := "!", "-"
+	treeS, reS, rsrcS := "!", "-", "-"
 	var st treeStats
 	if terr == nil {
 		var toks []string
@@ -300,7 +371,15 @@ func runCase(id int, kind, expr string, rs *resSpec, projTexts []string, extraTa
 		serTree(tree, &toks, &leaves, &st)
 		treeS = strings.Join(toks, ".")
 		reS = oracleTable(leaves, res)
+		if len(leaves) > 0 {
+			srcs := make([]string, len(leaves))
+			for i, l := range leaves {
+				srcs[i] = l.re.String()
+			}
+			rsrcS = hx.HexListS(srcs)
+		}
 	}
+	reokS, spS := textOracles(expr)
 	projS := "-"
 	var fixedN, fullFixed int
 	if len(projTexts) > 0 {
@@ -377,13 +456,13 @@ func runCase(id int, kind, expr string, rs *resSpec, projTexts []string, extraTa
 	if len(projTexts) > 0 {
 		ptext = hx.HexListS(projTexts)
 	}
-	hx.Printf("case %d kind=%s expr=%s tree=%s re=%s %s projs=%s ptext=%s tag=%s\n", id, kind, hx.HexS(expr), treeS, reS, rs.fields(), projS, ptext, strings.Join(tags, "+"))
+	hx.Printf("case %d kind=%s expr=%s tree=%s re=%s rsrc=%s reok=%s sp=%s %s projs=%s ptext=%s tag=%s\n", id, kind, hx.HexS(expr), treeS, reS, rsrcS, reokS, spS, rs.fields(), projS, ptext, strings.Join(tags, "+"))
 	casePrinted = true
 
 	// ---- the real code, public API only
 	f, err := benchproc.NewFilter(expr)
 	if err != nil {
-		hx.Printf("obs %d new=%s\n", id, newErrTag(err))
+		hx.Printf("obs %d new=%s tnew=%s\n", id, newErrTag(err), newErrTagText(err))
 		return true
 	}
 	var pp benchproc.ProjectionParser
@@ -391,7 +470,7 @@ func runCase(id int, kind, expr string, rs *resSpec, projTexts []string, extraTa
 	for _, t := range projTexts {
 		p, err := pp.Parse(t, f)
 		if err != nil {
-			hx.Printf("obs %d new=ok perr=%s\n", id, projErrTag(err))
+			hx.Printf("obs %d new=ok tnew=ok perr=%s\n", id, projErrTag(err))
 			return true
 		}
 		projs = append(projs, p)
@@ -455,8 +534,11 @@ func runCase(id int, kind, expr string, rs *resSpec, projTexts []string, extraTa
 		bad("apply-modified-name-or-config")
 	}
 	pvS := hx.HexListS(pv)
-	hx.Printf("obs %d new=ok perr=none pv=%s n=%d test=%s oob=%s all=%s any=%s apply=%s flag=%s fapply=%s fflag=%s omiss=0 glue=%s\n",
-		id, pvS, n, test, oob, b01(all), b01(any), idxList(r1.Values), b01(flag1), idxList(r2.Values), b01(flag2), glue)
+	// the t* fields are the same real observations once more: the driver computes them a second
+	// time from the expression TEXT (parser model of C07 composed with the evaluator model)
+	hx.Printf("obs %d new=ok tnew=ok perr=none pv=%s n=%d test=%s oob=%s all=%s any=%s apply=%s flag=%s fapply=%s fflag=%s omiss=0 glue=%s ttest=%s tall=%s tany=%s tapply=%s tflag=%s\n",
+		id, pvS, n, test, oob, b01(all), b01(any), idxList(r1.Values), b01(flag1), idxList(r2.Values), b01(flag2), glue,
+		test, b01(all), b01(any), idxList(r2.Values), b01(flag2))
 	// what the property speaks about; for n = 0 All/Any/flag are a boundary (see notes/C06.md)
 	allS, anyS, flagS := "n0", "n0", "n0"
 	if n > 0 {
